@@ -239,7 +239,7 @@ def main():
     out.append("/-- currency code ↦ rate as the exact decimal of config.json (numerator, denominator) -/")
     out.append("def rateTable : List (String × Nat × Nat) := " + llist(rate_rows) + "\n")
     out.append("def rates : List (String × F) := rateTable.map fun r => (r.1, Num.ofRat false r.2.1 r.2.2)\n")
-    zone_rows = [f"({lstr(z)}, {cfg['timezones'][z]})" for z in rust_sorted(cfg["timezones"].keys())]
+    zone_rows = [f"({lstr(z.upper())}, {cfg['timezones'][z]})" for z in rust_sorted(cfg["timezones"].keys())]
     out.append("def zones : List (String × Int) := " + llist(zone_rows) + "\n")
 
     # units
